@@ -445,7 +445,12 @@ def call_builtin(it, name, args, kwargs):
             return v
         if is_sym(v) and v.is_number:
             return int(v)
-        raise Undecided("int() of symbolic real")
+        if is_sym(v):
+            # truncation toward zero: k integer, k <= v < k+1 for v >= 0 and k-1 < v <= k for v < 0
+            k = it.fresh_int("trunc")
+            it.assume(sym.Or(sym.And(sym.Ge(v, 0), sym.Le(k, v), sym.Lt(v, k + 1)), sym.And(sym.Lt(v, 0), sym.Ge(k, v), sym.Gt(v, k - 1))))
+            return k
+        raise Undecided("int() of a non-numeric value")
     if name == "bool":
         return it.truth(args[0])
     if name == "len":
